@@ -96,7 +96,7 @@ fn canon_i(x: &IBig) -> Option<String> {
     None
 }
 
-pub const N_UROUTES: usize = 34;
+pub const N_UROUTES: usize = 40;
 
 /// build the UBig `x` by route `r` (the result must have the same value as `x`)
 pub fn route_u(x: &UBig, r: usize) -> Option<UBig> {
@@ -189,11 +189,37 @@ pub fn route_u(x: &UBig, r: usize) -> Option<UBig> {
             }
             dashu_base::Gcd::gcd(x, x)
         }
+        34 => {
+            // clone_from onto a much larger heap target (capacity above max_compact_capacity: reallocation)
+            let mut t = UBig::ONE << 6400;
+            t.clone_from(x);
+            t
+        }
+        35 => {
+            // clone_from onto a heap target of the same length (buffer reused in place)
+            let mut t = x ^ (UBig::ONE << (bits.max(1) - 1)) | UBig::ONE << bits.max(1) - 1;
+            t.clone_from(x);
+            t
+        }
+        36 => dashu_base::SquareRoot::sqrt(&(x * x)),
+        37 => {
+            if bits > 3000 {
+                return None;
+            }
+            x.pow(3).nth_root(3)
+        }
+        38 => UBig::from_str_radix(&x.in_radix(7).to_string(), 7).ok()?,
+        39 => {
+            if x.is_zero() {
+                return None;
+            }
+            dashu_base::Gcd::gcd(x * UBig::from(3u8), &(x * UBig::from(5u8)))
+        }
         _ => return None,
     })
 }
 
-pub const N_IROUTES: usize = 22;
+pub const N_IROUTES: usize = 26;
 
 pub fn route_i(x: &IBig, r: usize) -> Option<IBig> {
     let (sign, mag) = x.clone().into_parts();
@@ -256,6 +282,19 @@ pub fn route_i(x: &IBig, r: usize) -> Option<IBig> {
                 return None;
             }
         }
+        22 => {
+            let mut t = -(IBig::ONE << 6400);
+            t.clone_from(x);
+            t
+        }
+        23 => IBig::from_be_bytes(&x.to_be_bytes()),
+        24 => {
+            if x.bit_len() > 3000 {
+                return None;
+            }
+            x.pow(3).nth_root(3)
+        }
+        25 => IBig::from_str_radix(&x.in_radix(36).to_string(), 36).ok()?,
         _ => return None,
     })
 }
@@ -659,7 +698,14 @@ pub mod fr {
             let b = mkf!($TB, arg($args, 4)?, p_isize(arg($args, 5)?)?, p_usize(arg($args, 6)?)?);
             let c = a.partial_cmp(&b).map(f_ord).unwrap_or("none");
             let d = b.partial_cmp(&a).map(f_ord).unwrap_or("none");
-            Ok(format!("{} {} {}{}{}", a == b, c, d, norm_mark(&a), norm_mark(&b)))
+            // `Ord / PartialOrd / PartialEq for Repr<B>` (no precisions: the precision shortcut is skipped)
+            let rc = a.repr().cmp(b.repr());
+            let rbad = if a.repr().partial_cmp(b.repr()) != Some(rc) || (a.repr() == b.repr()) != (a == b) || b.repr().cmp(a.repr()) != rc.reverse() {
+                " BAD repr-level"
+            } else {
+                ""
+            };
+            Ok(format!("{} {} {} {}{}{}{}", a == b, c, d, f_ord(rc), rbad, norm_mark(&a), norm_mark(&b)))
         }};
     }
 
